@@ -27,6 +27,25 @@ type c09Op struct {
 	Doc string `json:"doc"`
 }
 
+func init() {
+	// cases guarded by a when on a leaf outside the choice
+	model.Schemas["choicewhen"] = `module choicewhen { namespace "urn:cw"; prefix cw; revision 0;
+  leaf kind { type string; }
+  choice ch {
+    case a { when "kind = 'a'"; leaf a1 { type string; } }
+    case b { when "kind = 'b'"; leaf b1 { type string; } container b2 { leaf x { type string; } } }
+  }
+}`
+}
+
+var c09WhenAlphabet = []c09Op{
+	{"when-case/switch-with-guard", `{"kind":"a","a1":"x"}`},
+	{"when-case/switch-with-guard", `{"kind":"b","b1":"y"}`},
+	{"when-case/switch-with-guard", `{"kind":"b","b2":{"x":"z"}}`},
+	{"when-case/guard-only", `{"kind":"a"}`},
+	{"when-case/guard-only", `{"kind":"b"}`},
+}
+
 var c09Alphabet = []c09Op{
 	{"flat/leaf", `{"a1":"a"}`},
 	{"flat/leaf", `{"a2":1}`},
@@ -55,6 +74,7 @@ var c09Alphabet = []c09Op{
 }
 
 type c09Case struct {
+	Schema string  `json:"schema,omitempty"` // "" = choice
 	Part   string  `json:"part"`
 	Store  string  `json:"store"`
 	Source string  `json:"source"`
@@ -74,6 +94,9 @@ func c09Depth(tier string) int {
 }
 
 func (p *c09) Cases(tier string, emit func(interface{})) {
+	for _, st := range []string{"ref", "reflect-map", "node-map"} {
+		emit(c09Case{Schema: "choicewhen", Part: "bfs", Store: st, Source: "json", Depth: c09Depth(tier) + 1})
+	}
 	// nodeutil.Reflect over Go structs does not implement choices (every read fails with
 	// "OnChoose not implemented"): only nodeutil.Node serves the struct-backed stores here
 	for _, st := range append(append([]string{}, store.Impls...), "node-struct", "node-structmap") {
@@ -165,6 +188,10 @@ func c09Step(c c09Case, inst *c09Inst, op c09Op) []eng.StepViol {
 	if kd, w := model.Diff(m.DataDefinitions(), want, got, env.canonOpts(), ""); kd != "" {
 		return []eng.StepViol{{Sig: site + "/wrong-result/" + kd, What: fmt.Sprintf("%s: %s; want %s got %s", desc, w, want, got)}}
 	}
+	if c.Schema == "choicewhen" {
+		// a case whose when is false is stored but not shown: the read clause does not apply
+		return nil
+	}
 	// the library's own read shows exactly the stored (selected-case) nodes
 	r := store.NewRef(nil)
 	var xerr error
@@ -187,8 +214,13 @@ func (p *c09) Run(raw json.RawMessage) eng.Result {
 	var c c09Case
 	decode(raw, &c)
 	var res eng.Result
-	m := model.SharedSchema("choice")
-	newInst := func() *c09Inst { return &c09Inst{env: newEnv("choice", c.Store)} }
+	schema := "choice"
+	alphabet := c09Alphabet
+	if c.Schema != "" {
+		schema, alphabet = c.Schema, c09WhenAlphabet
+	}
+	m := model.SharedSchema(schema)
+	newInst := func() *c09Inst { return &c09Inst{env: newEnv(schema, c.Store)} }
 	if c.Part == "history" {
 		inst := newInst()
 		for i, op := range c.Ops {
@@ -200,7 +232,7 @@ func (p *c09) Run(raw json.RawMessage) eng.Result {
 	}
 	ex := eng.Explorer[*c09Inst, c09Op]{
 		New:  newInst,
-		Ops:  func(*c09Inst) []c09Op { return c09Alphabet },
+		Ops:  func(*c09Inst) []c09Op { return alphabet },
 		Step: func(inst *c09Inst, op c09Op) []eng.StepViol { return c09Step(c, inst, op) },
 		Key: func(inst *c09Inst) string {
 			return inst.env.snap().Canon(m.DataDefinitions(), inst.env.canonOpts())
